@@ -1251,10 +1251,12 @@ def apply_cut(obj, how):
         return obj.persist(scheduler="sync")
     if how == "delayed":
         parts = obj.to_delayed()
-        return dx.from_delayed(parts, meta=obj._meta, divisions=obj.divisions)
+        # verify_meta=False: the declared dtypes may legitimately differ from a partition's by pandas'
+        # int/bool promotion (C07); from_delayed's check is about *user supplied* meta
+        return dx.from_delayed(parts, meta=obj._meta, divisions=obj.divisions, verify_meta=False)
     if how == "delayed_nodiv":
         parts = obj.to_delayed()
-        return dx.from_delayed(parts, meta=obj._meta)
+        return dx.from_delayed(parts, meta=obj._meta, verify_meta=False)
     if how == "legacy":
         return dx.from_legacy_dataframe(obj.to_legacy_dataframe())
     if how == "legacy_noopt":
@@ -1330,3 +1332,14 @@ def precondition(opname, ins, args):
             if c not in a.columns or c not in b.columns or col_kind(a[c].dtype) != col_kind(b[c].dtype):
                 return False
     return True
+
+
+@register("rename_series", kinds=("series", "index"), weight=0.8, tags={"rowwise"})
+class RenameSeries(Op):
+    @staticmethod
+    def gen(draw, ins):
+        return {"name": draw(st().sampled_from(["renamed", "zz", "x"]))}
+
+    @staticmethod
+    def apply(side, objs, args):
+        return objs[0].rename(args["name"])
